@@ -9,6 +9,7 @@ fn main() {
     "C14" => mc::enum_map::run(&args),
     "C15" => mc::c15::run(&args),
     "smoke" => smoke(),
+    "count" => count(),
     "C01" | "C02" | "C03" | "C04" | "C05" | "C06" | "C07" | "C08" | "C09" | "C16" | "C17" | "C18" | "C19" | "C20" => mc::checks::run(&args),
     other => { eprintln!("unknown property {}", other); 2 }
   };
@@ -37,5 +38,20 @@ fn smoke() -> i32 {
   let n = 20000;
   for _ in 0..n { let _ = run_history(&p, &path); }
   println!("{:.1} us per history", t0.elapsed().as_secs_f64() * 1e6 / n as f64);
+  0
+}
+
+fn count() -> i32 {
+  use mc::enumerate::*; use mc::m1::classify; use mc::prog::*;
+  for (n, r, k) in [(3usize, 1u8, 4usize), (3, 1, 5), (3, 2, 4), (4, 1, 5), (3, 2, 5)] {
+    let t0 = std::time::Instant::now();
+    let mut e = EnumCfg::structural(n, r, k);
+    e.ocs = vec![OC::PieAlways];
+    e.srcs = vec![]; e.guard_vals = vec![1];
+    let all = enumerate(&e, |p| p.bodies.iter().flatten().any(|s| matches!(s.op, Op::Read(..))) && p.bodies.iter().flatten().any(|s| matches!(s.op, Op::Req(..))));
+    let mut wf = 0; let mut cyc = 0;
+    for p in &all { let c = classify(p); if c.wf() { wf += 1; } else if c.flags.cycle { cyc += 1; } }
+    println!("no-write ({},{},{}): {} programs, wf {}, cyclic {} in {:.1}s", n, r, k, all.len(), wf, cyc, t0.elapsed().as_secs_f64());
+  }
   0
 }
